@@ -854,6 +854,10 @@ func (d *defaultWriter) RawWrite(writer util.BufWriter, source []byte) {
 	l := len(source)
 	for i := 0; i < l; i++ {
 		v := util.EscapeHTMLByte(source[i])
+		if source[i] == 0 {
+			// U+0000 is an insecure character wherever it is written
+			v = replacementCharacter
+		}
 		if v != nil {
 			_, _ = writer.Write(source[i-n : i])
 			n = 0
